@@ -252,9 +252,18 @@ func (e *instEnv) run(in input) obs {
 	return obs{seq: seq, mem: mem, rendered: rendered, chain: chainProblem, viaInst: true}
 }
 
+// curRuleOf: backend ID -> rule index of the converter case being judged (nil otherwise)
+var curRuleOf map[string]int
+
 // targetRule maps a map value back to the index of the rule: "t12" (map builder driven
 // directly) or the backend ID "ns_t12_8080" (through the instance).
 func targetRule(v string) int {
+	if curRuleOf != nil {
+		if i, ok := curRuleOf[v]; ok {
+			return i
+		}
+		return -1
+	}
 	v = strings.TrimPrefix(v, "ns_")
 	v = strings.TrimSuffix(v, "_8080")
 	n := -1
@@ -277,8 +286,8 @@ func sameFiles(mem, rendered []fileObs) string {
 	}
 	for i := range mem {
 		m, r := mem[i], rendered[i]
-		if m.Name != r.Name || m.Method != r.Method || m.Lower != r.Lower {
-			return fmt.Sprintf("file %d: MatchFiles() says %s method=%s lower=%v, rendered %s method=%s lower=%v", i, m.Name, m.Method, m.Lower, r.Name, r.Method, r.Lower)
+		if m.Name != r.Name || m.Method != r.Method || m.Lower != r.Lower || strings.Join(m.Headers, "|") != strings.Join(r.Headers, "|") {
+			return fmt.Sprintf("file %d: MatchFiles() says %s method=%s lower=%v headers=%v, rendered %s method=%s lower=%v headers=%v", i, m.Name, m.Method, m.Lower, m.Headers, r.Name, r.Method, r.Lower, r.Headers)
 		}
 		if len(m.Entries) != len(r.Entries) {
 			missing := diffEntries(m.Entries, r.Entries)
